@@ -24,7 +24,8 @@ theorem workersNodup_step (hi : Inv s) (h : step s l = some s') : s'.workers.Nod
   all_goals (first | exact h1 | (simp_all [State.goto] <;> fin))
 
 /-- nobody else is between `pthread_create` and `m_list_insert` when a thread is about to create one -/
-theorem pend_none_of_create (hi : Inv s) (ht : s.pc l.tid = .sCreate ∨ s.pc l.tid = .mNewCreate) : s.pendBy = none := by
+theorem pend_none_of_create (hi : Inv s) (ht : s.pc l.tid = .sCreate ∨ s.pc l.tid = .nCreate ∨ s.pc l.tid = .mNewCreate) :
+    s.pendBy = none := by
   cases hp : s.pendBy with
   | none => rfl
   | some c =>
@@ -34,22 +35,28 @@ theorem pend_none_of_create (hi : Inv s) (ht : s.pc l.tid = .sCreate ∨ s.pc l.
     have hl := hi.liveHandle
     have ho := hi.othersNotM
     have h0 := hi.mainIsM
-    rcases ht with ht | ht <;> rcases hc with hc | hc
-    · have a := hm c (by simp [hc]); have b := hm l.tid (by simp [ht])
-      rw [a] at b; cases b; simp [hc] at ht
-    · have a := hl l.tid (by simp [ht])
-      by_cases c0 : c = 0
-      · subst c0; simp [a] at hc
-      · have := ho c c0; simp [hc] at this
-    · have a := hl c (by simp [hc])
-      by_cases c0 : l.tid = 0
-      · rw [c0] at ht; simp [a] at ht
-      · have := ho l.tid c0; simp [ht] at this
-    · by_cases c0 : c = 0
-      · by_cases t0 : l.tid = 0
-        · rw [t0] at ht; subst c0; simp [hc] at ht
-        · have := ho l.tid t0; simp [ht] at this
-      · have := ho c c0; simp [hc] at this
+    have hq := hi.newQuiet
+    -- thread 0 is the only one in `m_thpool_new`
+    have zero_of_M : ∀ u, isM (s.pc u) = true → u = 0 := fun u hu => Decidable.byContradiction fun u0 => by
+      have := ho u u0; rw [hu] at this; cases this
+    -- two threads that both hold the mutex are the same thread
+    have same : ∀ u v, holds (s.pc u) = true → holds (s.pc v) = true → u = v := fun u v hu hv => by
+      have a := hm u hu; have b := hm v hv; rw [a] at b; cases b; rfl
+    rcases ht with ht | ht | ht <;> rcases hc with hc | hc | hc
+    · have := same c l.tid (by simp [hc]) (by simp [ht]); subst this; simp [hc] at ht
+    · have := same c l.tid (by simp [hc]) (by simp [ht]); subst this; simp [hc] at ht
+    · have c0 := zero_of_M c (by simp [hc]); subst c0
+      have := hl l.tid (by simp [ht]); simp [this] at hc
+    · have := same c l.tid (by simp [hc]) (by simp [ht]); subst this; simp [hc] at ht
+    · have := same c l.tid (by simp [hc]) (by simp [ht]); subst this; simp [hc] at ht
+    · have c0 := zero_of_M c (by simp [hc]); subst c0
+      have := (hq (by simp [hc])).2 l.tid; simp [ht] at this
+    · have t0 := zero_of_M l.tid (by simp [ht])
+      have := hl c (by simp [hc]); rw [t0] at ht; simp [this] at ht
+    · have t0 := zero_of_M l.tid (by simp [ht])
+      have := (hq (by rw [← t0, ht]; simp)).2 c; simp [hc] at this
+    · have t0 := zero_of_M l.tid (by simp [ht]); have c0 := zero_of_M c (by simp [hc])
+      rw [t0] at ht; rw [c0] at hc; simp [hc] at ht
 
 
 set_option maxHeartbeats 1000000 in
@@ -70,7 +77,7 @@ theorem thrSub_step (hi : Inv s) (h : step s l = some s') : ∀ u, u ∈ s'.thre
 
 set_option maxHeartbeats 1000000 in
 theorem pendPc_step (hi : Inv s) (h : step s l = some s') :
-    ∀ c, s'.pendBy = some c ↔ (s'.pc c = .sInsert ∨ s'.pc c = .mNewInsert) := by
+    ∀ c, s'.pendBy = some c ↔ (s'.pc c = .sInsert ∨ s'.pc c = .nInsert ∨ s'.pc c = .mNewInsert) := by
   intro c
   have h1 := hi.pendPc c
   have h2 := hi.pendPc l.tid
@@ -81,6 +88,18 @@ theorem pendPc_step (hi : Inv s) (h : step s l = some s') :
     · subst ht; simp_all [State.goto, upd_apply, zero_eq] <;> fin
     · simp_all [State.goto, upd_apply, zero_eq] <;> fin)
 
+
+set_option maxHeartbeats 1000000 in
+theorem pendSelf_step (hi : Inv s) (h : step s l = some s') : ∀ c, s'.pendBy = some c → s'.newTh c ≠ c := by
+  intro c
+  have h1 := hi.pendSelf c
+  have h2 := hi.pendPc c
+  have h3 := pend_none_of_create (l := l) hi
+  step_cases h
+  all_goals (
+    by_cases ht : c = l.tid
+    · subst ht; simp_all [State.goto, upd_apply, zero_eq] <;> fin
+    · simp_all [State.goto, upd_apply, zero_eq] <;> fin)
 
 set_option maxHeartbeats 1000000 in
 theorem pendNone_step (hi : Inv s) (h : step s l = some s') :
@@ -113,6 +132,14 @@ theorem pendSome_step (hi : Inv s) (h : step s l = some s') :
   have h9 := hi.mainIsM
   have h10 := hi.othersNotM l.tid
   have h11 : s.pc c = .mNewInsert → c = 0 := fun e => Decidable.byContradiction fun c0 => by have := h6 c0; simp [e] at this
+  -- past the shutdown check (lock held) the pool is not shutting down, so thread 0 has not got beyond `fSetShut`
+  have h12 : pastChk (s.pc l.tid) = true → ph (s.pc 0) ≤ 4 := fun hp => by
+    have a := hi.pastChkNo l.tid hp
+    have b := hi.shutSet
+    cases hm : s.mode <;> (apply Nat.le_of_not_lt; intro hlt; have := b (by omega); simp [hm, a] at this)
+  -- once the workers are gone nobody is between create and insert
+  have h13 : 10 ≤ ph (s.pc 0) → s.pc c ≠ .nInsert := fun hp e => by
+    have := hi.goneAll (Or.inl hp) c (by simp [e]); simp [e] at this
   step_cases h
   all_goals (
     by_cases ht : c = l.tid
